@@ -26,7 +26,7 @@ ASSUMPTIONS = [
     "digit-exactness of builtins.repr(float), black formatting and string quoting are not decided",
     "classes wrapping callables (NormLambda, HedgeLambda) are not representable by design",
 ]
-FLOORS = {"R1": 60, "R2": 9, "R5": 4, "R6": 3, "R7": 16, "R8": 1, "R9": 3, "T10": 4}
+FLOORS = {"R11": 11, "R1": 60, "R2": 9, "R5": 4, "R6": 3, "R7": 16, "R8": 1, "R9": 3, "T10": 4}
 
 NOT_REPRESENTABLE = {"NormLambda": "wraps a Python callable", "HedgeLambda": "wraps a Python callable"}
 DIRECTIVES = {("Engine", "load"), ("Function", "load"), ("Linear", "engine"), ("Function", "engine")}
@@ -138,6 +138,7 @@ def run(check: Check) -> None:
     alias_discipline(check)
     exports(check)
     python_exporter(check)
+    repr_limits(check)
     if check.tier == "thorough":
         example_signatures(check)
     check.exhaustive_parts += ["constructor parameter x emitted field table for every class with a constructor"]
@@ -459,6 +460,44 @@ def python_exporter(check: Check) -> None:
     fm = [n for n in r.cfg.stmt_nodes() if any(isinstance(c.func, ast.Attribute) and c.func.attr == "format" for c in r.cfg.calls_in(n))]
     ok = bool(fm) and any(path_of(r.term(g, gn)) == "self.formatted" and pol for g, pol, gn in r.cfg.must_guards(fm[0]))
     check.require(ok, "R9", "PythonExporter.to_string/format", "formatting is applied iff self.formatted", loc(ts))
+
+
+REPRLIB_LIMITS = ["maxtuple", "maxlist", "maxarray", "maxdict", "maxset", "maxfrozenset", "maxdeque", "maxstring", "maxlong", "maxother"]
+
+
+def repr_limits(check: Check) -> None:
+    """R11: Representation lifts every truncation limit of reprlib.Repr (a truncated container is not valid Python)."""
+    p = check.program
+    fn = p.func("Representation.__init__")
+    check.analysed(fn)
+    rep = p.cls("Representation")
+    check.require(any(b.endswith("Repr") for b in rep.external_bases), "R11", "Representation/base", "Representation specialises reprlib.Repr", rep.loc())
+    raised: set[str] = set()
+    for x in ast.walk(fn.node):
+        if isinstance(x, (ast.AugAssign, ast.Assign)):
+            for t in ([x.target] if isinstance(x, ast.AugAssign) else x.targets):
+                if isinstance(t, ast.Attribute) and isinstance(t.value, ast.Name) and t.value.id == "self" and t.attr.startswith("max"):
+                    raised.add(t.attr)
+        if isinstance(x, ast.For):
+            # for name in <constant list>: setattr(self, name, ...)
+            names: list[str] = []
+            it = x.iter
+            if isinstance(it, ast.Call) and isinstance(it.func, ast.Attribute) and it.func.attr == "split" and not it.args:
+                src = it.func.value
+                if isinstance(src, ast.Name):
+                    for a_ in ast.walk(fn.node):
+                        if isinstance(a_, ast.Assign) and isinstance(a_.targets[0], ast.Name) and a_.targets[0].id == src.id and isinstance(a_.value, ast.Constant):
+                            src = a_.value
+                if isinstance(src, ast.Constant) and isinstance(src.value, str):
+                    names = src.value.split()
+            elif isinstance(it, (ast.List, ast.Tuple, ast.Set)):
+                names = [e.value for e in it.elts if isinstance(e, ast.Constant) and isinstance(e.value, str)]
+            if names and any(isinstance(c_, ast.Call) and isinstance(c_.func, ast.Name) and c_.func.id == "setattr" and len(c_.args) == 3 and
+                             unparse(c_.args[0]) == "self" and isinstance(x.target, ast.Name) and unparse(c_.args[1]) == x.target.id for c_ in ast.walk(x)):
+                raised |= set(names)
+    for lim in REPRLIB_LIMITS:
+        check.require(lim in raised, "R11", f"Representation.__init__/{lim}", f"reprlib limit `{lim}` is lifted" if lim in raised else
+                      f"reprlib limit `{lim}` keeps its small default: longer containers are printed with `...` and the representation is not valid Python", loc(fn))
 
 
 # ------------------------------------------------------------------------------------------------ thorough: examples
